@@ -52,6 +52,8 @@ type Exec struct {
 	inlineMax  int
 	seqCtr     int
 	ghostDone  map[string]bool
+	assertSeen map[*Clause]bool
+	callOrds   map[*ssa.Function]map[ssa.Instruction]int
 	ghosts     map[string]*Ghost
 	ghostSig   map[string][]string
 	bounded    int // >0: unroll loops without invariants this many times
